@@ -15,6 +15,8 @@ import (
 	"sort"
 	"strconv"
 	"strings"
+	"sync"
+	"sync/atomic"
 	"testing"
 	"time"
 
@@ -130,7 +132,32 @@ func TestChild(t *testing.T) {
 
 // ---------------------------------------------------------------- parent
 
-const batchCeiling = 4 * time.Minute
+// A case (a program of a few lines) normally takes milliseconds. A child that reports no progress
+// for caseCeiling is killed and the case in flight is retried alone, twice, with soloCeiling.
+const (
+	caseCeiling = 45 * time.Second
+	soloCeiling = 90 * time.Second
+)
+
+// set after the first confirmed hang of this process
+var hangConfirmed atomic.Bool
+
+// timeouts observed by this process so far
+var hangsSeen atomic.Int32
+
+const afterHangCeiling = 15 * time.Second
+
+type lockedBuffer struct {
+	mu sync.Mutex
+	b  bytes.Buffer
+}
+
+func (l *lockedBuffer) Write(p []byte) (int, error) {
+	l.mu.Lock()
+	defer l.mu.Unlock()
+	return l.b.Write(p)
+}
+func (l *lockedBuffer) String() string { l.mu.Lock(); defer l.mu.Unlock(); return l.b.String() }
 
 // observe runs the cases in child processes; result i is one of
 // ok | error-compile | error-generate | panic-<stage> ... | fatal-<stage>:<reason> | timeout-<stage>.
@@ -145,23 +172,80 @@ func observe(cases []Case, scratch string) ([]string, error) {
 	res := make([]string, len(cases))
 	start := 0
 	for start < len(cases) {
+		if hangConfirmed.Load() && hangsSeen.Load() >= 3 {
+			// the run has failed already: the rest of the batch is not explored
+			for i := start; i < len(cases); i++ {
+				res[i] = "skipped-after-hangs"
+			}
+			break
+		}
 		cmd := exec.Command(os.Args[0], "-test.run", "^TestChild$", "-test.timeout", "30m")
 		cmd.Env = append(os.Environ(), "VERIF_CHILD_C08="+f.Name(), "VERIF_CHILD_START="+strconv.Itoa(start), "VERIF_CHILD_TMP="+scratch, "VERIF_STATS=", "VERIF_REPLAY=")
-		var out bytes.Buffer
-		cmd.Stdout, cmd.Stderr = &out, &out
+		// the child's output is followed as it arrives: the ceiling applies to one case (the time
+		// since the child last reported progress), not to the batch
+		var out lockedBuffer
+		pr, pw, err := os.Pipe()
+		if err != nil {
+			return nil, err
+		}
+		cmd.Stdout, cmd.Stderr = pw, pw
 		if err := cmd.Start(); err != nil {
 			return nil, err
 		}
+		pw.Close()
+		progress := make(chan struct{}, 1)
+		copied := make(chan struct{})
+		go func() {
+			defer close(copied)
+			buf := make([]byte, 64<<10)
+			for {
+				n, err := pr.Read(buf)
+				if n > 0 {
+					out.Write(buf[:n])
+					select {
+					case progress <- struct{}{}:
+					default:
+					}
+				}
+				if err != nil {
+					return
+				}
+			}
+		}()
 		done := make(chan error, 1)
 		go func() { done <- cmd.Wait() }()
 		timedOut := false
-		select {
-		case <-done:
-		case <-time.After(batchCeiling):
-			cmd.Process.Kill()
-			<-done
-			timedOut = true
+		ceiling := caseCeiling
+		if len(cases) == 1 {
+			ceiling = soloCeiling
 		}
+		if hangConfirmed.Load() {
+			ceiling = afterHangCeiling
+		}
+		timer := time.NewTimer(ceiling)
+	wait:
+		for {
+			select {
+			case <-done:
+				break wait
+			case <-progress:
+				if !timer.Stop() {
+					select {
+					case <-timer.C:
+					default:
+					}
+				}
+				timer.Reset(ceiling)
+			case <-timer.C:
+				cmd.Process.Kill()
+				<-done
+				timedOut = true
+				break wait
+			}
+		}
+		timer.Stop()
+		<-copied
+		pr.Close()
 		cur, stage, finished := -1, "compile", false
 		for _, line := range strings.Split(out.String(), "\n") {
 			fs := strings.Fields(line)
@@ -193,6 +277,22 @@ func observe(cases []Case, scratch string) ([]string, error) {
 		switch {
 		case timedOut:
 			res[cur] = "timeout-" + stage
+			hangsSeen.Add(1)
+			if len(cases) > 1 && !hangConfirmed.Load() {
+				// confirm straight away: the case alone, twice
+				for k := 0; k < 2; k++ {
+					rr, err := observe(cases[cur:cur+1], scratch)
+					if err == nil && !strings.HasPrefix(rr[0], "timeout-") {
+						res[cur] = rr[0]
+						hangsSeen.Add(-1)
+						break
+					}
+				}
+				if strings.HasPrefix(res[cur], "timeout-") {
+					res[cur] += " confirmed"
+					hangConfirmed.Store(true)
+				}
+			}
 		case strings.Contains(s, "stack overflow") || strings.Contains(s, "goroutine stack exceeds"):
 			res[cur] = "fatal-" + stage + ":stack-overflow"
 		case strings.Contains(s, "out of memory") || strings.Contains(s, "cannot allocate memory"):
@@ -226,14 +326,16 @@ func verdict(c Case, r string, scratch string) error {
 		stage, reason, _ := strings.Cut(f, ":")
 		return ev.Errf("fatal/"+stage+"/"+reason+"/"+shape, "the process died in %s (%s): %s", stage, reason, r)
 	case strings.HasPrefix(r, "timeout-"):
-		// a timeout only counts after the case failed to finish alone, twice
-		for k := 0; k < 2; k++ {
+		// a timeout only counts after the case failed to finish alone, twice. Once one hang is
+		// confirmed the run has failed already: later ones are reported without the retries
+		for k := 0; k < 2 && !hangConfirmed.Load() && !strings.HasSuffix(r, " confirmed"); k++ {
 			rr, err := observe([]Case{c}, scratch)
 			if err == nil && !strings.HasPrefix(rr[0], "timeout-") {
 				return verdict(c, rr[0], scratch)
 			}
 		}
-		return ev.Errf("timeout/"+strings.TrimPrefix(r, "timeout-")+"/"+shape, "did not terminate within %v (three attempts)", batchCeiling)
+		hangConfirmed.Store(true)
+		return ev.Errf("timeout/"+strings.Fields(strings.TrimPrefix(r, "timeout-"))[0]+"/"+shape, "did not terminate within %v (three attempts, the last two alone with %v)", caseCeiling, soloCeiling)
 	case r == "neither-compile":
 		return ev.Errf("neither/compile/"+shape, "Compile returned neither a module nor an error")
 	case r == "empty-error-compile":
@@ -261,6 +363,10 @@ func evaluate(t *testing.T, unit string, cases []Case) {
 		b, _ := json.Marshal(c.Files)
 		d := ev.Digest(b, []byte(c.Entry))
 		outcome := strings.Fields(res[i] + " ?")[0]
+		if outcome == "skipped-after-hangs" {
+			ev.Case(d, false, "outcome:"+outcome)
+			continue
+		}
 		parsed := outcome != "error-compile" || c.Src == "structural"
 		nontriv := c.Src == "structural" || (outcome != "error-compile")
 		_ = parsed
